@@ -243,7 +243,9 @@ func (c *Config) flattenedKeys(visiting map[*Config]struct{}, opts ...Option) []
 				keys = append(keys, newKeys...)
 			}
 		}
-	} else if c.IsArray() {
+	}
+	// (a config can hold named settings and list entries at the same time)
+	if c.IsArray() {
 		for _, a := range c.fields.array() {
 			scfg, err := a.toConfig(normalizedOptions)
 			if err == nil {
